@@ -736,6 +736,23 @@ API = {
 }
 
 
+def root_origins(prog, root, clo, op):
+    """origins of an operand of closure `clo` expressed in `root` (the function that builds the closure): captured values
+    are replaced by the origins of the captured operands"""
+    out = set()
+    agg = None
+    for b, i, st in root.iter_stmts():
+        if st["k"] == "assign" and "agg" in st["rv"] and st["rv"]["agg"].get("kind") == "closure" and st["rv"]["agg"].get("closure") == clo.path:
+            agg = st["rv"]["agg"]
+    for o in origins(clo, op):
+        if agg is not None and o[0] == "arg" and o[1] == 1 and len(o) >= 3 and o[2].lstrip(".").isdigit() and int(o[2].lstrip(".")) < len(agg["ops"]):
+            for o2 in origins(root, agg["ops"][int(o[2].lstrip("."))]):
+                out.add(tuple(o2) + tuple(x for x in o[3:] if x != "*"))
+        else:
+            out.add(("closure-local",) + tuple(o))
+    return out
+
+
 def api_wiring(ctx, prog):
     n = 0
     for (ty, name), (sched, gparam, shape) in sorted(API.items()):
@@ -746,16 +763,22 @@ def api_wiring(ctx, prog):
         for m in ms:
             ctx.touch(m)
             found = []
-            for b, t, fr in m.iter_calls():
-                if fr is None or lib.tail(mir.fn_name(fr), 1) not in ("syscall", "syscall_with_validation"):
-                    continue
-                for a in t["args"]:
-                    fa = op_fn(a)
-                    if fa and lib.tail(mir.fn_name(fa), 1).startswith("schedule_"):
-                        found.append((b, t, fa))
+            for bd in [m] + prog.closures_of(m):
+                for b, t, fr in bd.iter_calls():
+                    if fr is None or lib.tail(mir.fn_name(fr), 1) not in ("syscall", "syscall_with_validation"):
+                        continue
+                    for a in t["args"]:
+                        fa = op_fn(a)
+                        if fa and lib.tail(mir.fn_name(fa), 1).startswith("schedule_"):
+                            found.append((b, t, fa, bd))
             n += 1
             ok = len(found) == 1 and lib.tail(mir.fn_name(found[0][2]), 1) == sched and found[0][2].get("args", [])[:1] == [gparam]
-            if ok:
+            if ok and found[0][3] is not m:
+                # the trigger is queued by a closure built in the entry point (e.g. an `on_change` callback handed to a
+                # helper): its input is judged by what the entry point captured
+                os_ = root_origins(prog, m, found[0][3], found[0][1]["args"][1])
+                ok = shape == "self.entity" and bool(os_) and all(o[0] == "arg" and o[1] == 1 and o[-1] == ".entity" for o in os_)
+            elif ok:
                 inp = found[0][1]["args"][1]
                 os_ = origins(m, inp)
                 if shape == "arg2":
